@@ -667,8 +667,19 @@ def _ham_table(HP, hs_sys, p, path):
 
 
 def new_ham(ctx, env):
-    ham, x0, rate = random_polyham(ctx.rng)
-    return HamProblem(ham, x0, rate, T=4 * 2 * np.pi / rate), env.hamenv().system(ham)
+    # a random cubic/quartic perturbation can let the chosen initial state escape (the reference flow then blows up and SciPy
+    # gives up): such a draw is not a test problem — reject it here (counted) instead of failing the sub-monitor later
+    for _ in range(40):
+        ham, x0, rate = random_polyham(ctx.rng)
+        HP = HamProblem(ham, x0, rate, T=4 * 2 * np.pi / rate)
+        try:
+            path = HP.exact(np.linspace(0.0, HP.T, 65))
+            if np.all(np.isfinite(path)) and float(np.max(np.abs(path))) < 2.0 and HP.accuracy() < 1e-9:
+                return HP, env.hamenv().system(ham)
+        except RuntimeError:
+            pass
+        ctx.count("M3/M4:random polynomial Hamiltonian rejected (reference path escapes or is not accurate)")
+    raise RuntimeError("no bounded random polynomial Hamiltonian in 40 draws")
 
 
 def new_duffing(ctx, env):
